@@ -354,3 +354,32 @@ package modeling
 //@     invariant target: len(modified) == len(oldData) && fresh(modified) && off(modified) == 0
 //@     invariant done: forall k int :: 0 <= k && k < ((i == size) ? len(oldData) : workSize * i) ==> modified[k] == f(k, oldData[k])
 //@     invariant forked: forall k int :: forked(k) == visitedOnce(k, 0, (i == size) ? len(oldData) : workSize * i)
+
+// =====================================================================================================
+// Shared vocabulary: well-formedness of a mesh (properties C02, C03, C07 ...)
+// =====================================================================================================
+//@ spec idxInRange(m Mesh, n int) bool = forall i int :: 0 <= i && i < len(m.indices) ==> 0 <= m.indices[i] && m.indices[i] < n
+
+//@ func Mesh.Topology pure
+//@ func NewTriangleMesh pure
+//@ func NewMesh pure
+//@ func EmptyMesh pure
+//@ func Topology.String trusted
+//@   ensures true
+
+// corner accessors: the index arithmetic is only defined on a mesh whose indices are in range
+//@ func Tri.P1 pure
+//@   requires 0 <= t.startingIndex && t.startingIndex < len(t.mesh.indices)
+//@ func Tri.P2 pure
+//@   requires 0 <= t.startingIndex + 1 && t.startingIndex + 1 < len(t.mesh.indices)
+//@ func Tri.P3 pure
+//@   requires 0 <= t.startingIndex + 2 && t.startingIndex + 2 < len(t.mesh.indices)
+//@ func Tri.P1Vec3Attr pure
+//@   requires 0 <= t.startingIndex && t.startingIndex < len(t.mesh.indices)
+//@   requires 0 <= t.mesh.indices[t.startingIndex] && t.mesh.indices[t.startingIndex] < len(t.mesh.v3Data[attr])
+//@ func Tri.P2Vec3Attr pure
+//@   requires 0 <= t.startingIndex + 1 && t.startingIndex + 1 < len(t.mesh.indices)
+//@   requires 0 <= t.mesh.indices[t.startingIndex + 1] && t.mesh.indices[t.startingIndex + 1] < len(t.mesh.v3Data[attr])
+//@ func Tri.P3Vec3Attr pure
+//@   requires 0 <= t.startingIndex + 2 && t.startingIndex + 2 < len(t.mesh.indices)
+//@   requires 0 <= t.mesh.indices[t.startingIndex + 2] && t.mesh.indices[t.startingIndex + 2] < len(t.mesh.v3Data[attr])
